@@ -689,9 +689,14 @@ req0_ctx_cancel_send(nni_aio *aio, void *arg, nng_err rv)
 
 	nni_mtx_lock(&s->mtx);
 	if (ctx->send_aio == aio) {
-		// There should not be a pending reply, because we canceled
-		// it while we were waiting.
-		NNI_ASSERT(ctx->recv_aio == NULL);
+		// A receive may have been posted while the send was still
+		// waiting (see req0_ctx_cancel_recv); with the request gone
+		// it can never complete, so it fails together with the send.
+		if (ctx->recv_aio != NULL) {
+			nni_aio *raio = ctx->recv_aio;
+			ctx->recv_aio = NULL;
+			nni_aio_finish_error(raio, rv);
+		}
 		ctx->send_aio = NULL;
 		// Restore the message back to the aio.
 		nni_aio_set_msg(aio, ctx->req_msg);
